@@ -9,11 +9,17 @@ use reactive_graph::{
     computed::Memo,
     effect::{Effect, ImmediateEffect, RenderEffect},
     owner::{
-        on_cleanup, provide_context, use_context, verif_arena_len, ArenaItem, LocalStorage, Owner,
+        expect_context, on_cleanup, provide_context, store_value, take_context, update_context,
+        use_context, verif_arena_len, with_context, ArcStoredValue, ArenaItem, LocalStorage, Owner,
         Storage, StoredValue, SyncStorage,
     },
-    signal::{ArcTrigger, RwSignal},
-    traits::{Dispose, GetUntracked, GetValue, IntoInner, IsDisposed, Notify, Track},
+    signal::{
+        arc_signal, signal, ArcRwSignal, ArcTrigger, ReadSignal, RwSignal, WriteSignal,
+    },
+    traits::{
+        Dispose, GetUntracked, GetValue, IntoInner, IsDisposed, Notify, Track, UpdateUntracked,
+    },
+    wrappers::read::Signal,
 };
 use std::cell::{Cell, RefCell};
 use std::rc::Rc;
@@ -205,6 +211,110 @@ fn with_storage<T: Val, S: Storage<T> + std::fmt::Debug>(h: i64) -> (Box<dyn Ite
     let k = node_id(&format!("{item:?}"));
     (Box::new(It { item, h }), k)
 }
+/// a typed arena handle behind closures
+struct Fh {
+    read: Box<dyn Fn() -> Option<i64>>,
+    disposed: Box<dyn Fn() -> bool>,
+    dispose: Box<dyn Fn()>,
+}
+impl ItemH for Fh {
+    fn read(&self) -> Option<i64> {
+        (self.read)()
+    }
+    fn disposed(&self) -> bool {
+        (self.disposed)()
+    }
+    fn dispose(&self) {
+        (self.dispose)()
+    }
+    fn take(&self) {
+        (self.dispose)()
+    }
+}
+macro_rules! fh {
+    ($x:expr, $read:expr, nodisp) => {{
+        // a handle type without `IsDisposed`: disposed = does not resolve
+        let x = $x;
+        let k = node_id(&format!("{x:?}"));
+        let read = $read;
+        (
+            Box::new(Fh {
+                read: Box::new(move || read(x)),
+                disposed: Box::new(move || read(x).is_none()),
+                dispose: Box::new(move || x.dispose()),
+            }) as Box<dyn ItemH>,
+            k,
+        )
+    }};
+    ($x:expr, $read:expr) => {{
+        let x = $x;
+        let k = node_id(&format!("{x:?}"));
+        let read = $read;
+        (
+            Box::new(Fh {
+                read: Box::new(move || read(x)),
+                disposed: Box::new(move || x.is_disposed()),
+                dispose: Box::new(move || x.dispose()),
+            }) as Box<dyn ItemH>,
+            k,
+        )
+    }};
+}
+pub const N_HK: i64 = 13;
+/// the other arena handle types of reactive_graph, by their own constructors and conversions;
+/// `h` = number of the first handle made (a statement makes one or two, in allocation order)
+fn new_typed(hk: i64, h: i64) -> Vec<(Box<dyn ItemH>, (u64, u64))> {
+    fn rd(r: ReadSignal<i64>) -> Option<i64> {
+        r.try_get_untracked()
+    }
+    fn wr(w: WriteSignal<i64>) -> Option<i64> {
+        w.try_update_untracked(|v| *v)
+    }
+    fn rw(s: RwSignal<i64>) -> Option<i64> {
+        s.try_get_untracked()
+    }
+    fn sv(s: StoredValue<i64>) -> Option<i64> {
+        s.try_get_value()
+    }
+    match hk.rem_euclid(N_HK) {
+        0 => {
+            let (r, w) = signal(h);
+            // both halves show the first handle's number
+            vec![fh!(r, rd), fh!(w, move |w| wr(w).map(|v| v + 1))]
+        }
+        // (Trigger is not here: its Debug rendering does not show the arena key)
+        1 => vec![fh!(WriteSignal::from(arc_signal(h).1), wr)],
+        2 => vec![fh!(StoredValue::new_local(h), |s: StoredValue<i64, LocalStorage>| s.try_get_value())],
+        3 => vec![fh!(store_value(h), sv)],
+        4 => vec![fh!(StoredValue::from(ArcStoredValue::new(h)), sv)],
+        5 => vec![fh!(RwSignal::new_local(h), |s: RwSignal<i64, LocalStorage>| s.try_get_untracked())],
+        6 => vec![fh!(RwSignal::from(ArcRwSignal::new(h)), rw)],
+        7 => {
+            let s = RwSignal::new(h);
+            let r = s.read_only();
+            vec![fh!(s, rw), fh!(r, move |r| rd(r).map(|v| v + 1))]
+        }
+        8 => {
+            let s = RwSignal::new(h);
+            let w = s.write_only();
+            vec![fh!(s, rw), fh!(w, move |w| wr(w).map(|v| v + 1))]
+        }
+        9 => vec![fh!(Signal::derive(move || h), |s: Signal<i64>| s.try_get_untracked(), nodisp)],
+        10 => vec![fh!(Signal::stored(h), |s: Signal<i64>| s.try_get_untracked(), nodisp)],
+        11 => vec![fh!(ReadSignal::from(arc_signal(h).0), rd)],
+        _ => {
+            let a = ArcRwSignal::new(h);
+            vec![fh!(RwSignal::from(&a), rw)]
+        }
+    }
+}
+/// arena entries one typed-handle statement makes (must agree with `hk_slots` of OwnerRun.v)
+fn hk_slots(hk: i64) -> usize {
+    match hk.rem_euclid(N_HK) {
+        0 | 7 | 8 => 2,
+        _ => 1,
+    }
+}
 pub const N_KINDS: i64 = 24;
 /// the (type, storage) pairs of raw arena items; 0..=11 SyncStorage, 12..=23 LocalStorage
 fn new_item(kind: i64, h: i64) -> (Box<dyn ItemH>, (u64, u64)) {
@@ -286,11 +396,37 @@ fn opt(v: Option<i64>) -> Sexp {
     }
 }
 
-fn use_ty(ty: i64) -> Option<i64> {
+/// a context lookup through one of the entry points: 0 use_context, 1 with_context,
+/// 2 expect_context (which panics when there is none)
+fn use_ty_mode(ty: i64, mode: i64) -> Option<i64> {
+    fn one<const N: usize>(mode: i64) -> Option<i64> {
+        match mode {
+            1 => with_context::<Cx<N>, _>(|c| c.0),
+            2 => std::panic::catch_unwind(|| expect_context::<Cx<N>>().0).ok(),
+            _ => use_context::<Cx<N>>().map(|c| c.0),
+        }
+    }
     match ty {
-        0 => use_context::<Cx<0>>().map(|c| c.0),
-        1 => use_context::<Cx<1>>().map(|c| c.0),
-        _ => use_context::<Cx<2>>().map(|c| c.0),
+        0 => one::<0>(mode),
+        1 => one::<1>(mode),
+        _ => one::<2>(mode),
+    }
+}
+fn use_ty(ty: i64) -> Option<i64> {
+    use_ty_mode(ty, 0)
+}
+fn take_ty(ty: i64) -> Option<i64> {
+    match ty {
+        0 => take_context::<Cx<0>>().map(|c| c.0),
+        1 => take_context::<Cx<1>>().map(|c| c.0),
+        _ => take_context::<Cx<2>>().map(|c| c.0),
+    }
+}
+fn update_ty(ty: i64, v: i64) -> Option<i64> {
+    match ty {
+        0 => update_context::<Cx<0>, _>(|c| std::mem::replace(&mut c.0, v)),
+        1 => update_context::<Cx<1>, _>(|c| std::mem::replace(&mut c.0, v)),
+        _ => update_context::<Cx<2>, _>(|c| std::mem::replace(&mut c.0, v)),
     }
 }
 
@@ -328,12 +464,39 @@ fn exec_stmt(st: &Sexp) {
                 c.keys.push(k)
             });
         }
+        27 => {
+            let h = ctx(|c| c.handles.len()) as i64;
+            let before = verif_arena_len();
+            let hs = new_typed(st.at(1).num(), h);
+            assert_eq!(hs.len(), hk_slots(st.at(1).num()));
+            assert_eq!(verif_arena_len(), before + hs.len(), "arena entries per typed handle");
+            for (it, k) in hs {
+                ctx(|c| {
+                    c.handles.push(Handle::Item(it));
+                    c.keys.push(k)
+                });
+            }
+        }
         2 => {
             let cid = ctx(|c| {
                 c.next_cid += 1;
                 c.next_cid - 1
             });
-            on_cleanup(move || log(Lst(vec![Num(1), Num(cid as i64)])));
+            if st.at(1).num() == 1 {
+                Owner::on_cleanup(move || log(Lst(vec![Num(1), Num(cid as i64)])));
+            } else {
+                on_cleanup(move || log(Lst(vec![Num(1), Num(cid as i64)])));
+            }
+        }
+        13 => {
+            let ty = st.at(1).num();
+            let r = take_ty(ty);
+            log(Lst(vec![Num(4), Num(ty), opt(r)]));
+        }
+        14 => {
+            let ty = st.at(1).num();
+            let r = update_ty(ty, st.at(2).num());
+            log(Lst(vec![Num(4), Num(ty), opt(r)]));
         }
         3 => {
             let v = st.at(2).num();
@@ -345,17 +508,31 @@ fn exec_stmt(st: &Sexp) {
         }
         4 => {
             let ty = st.at(1).num();
-            let r = use_ty(ty);
+            let r = use_ty_mode(ty, st.at(2).num());
             log(Lst(vec![Num(4), Num(ty), opt(r)]));
         }
         5 => {
             let body = st.at(1).clone();
-            let o = Owner::new();
+            let mode = st.at(2).num();
+            // 0: Owner::new(); 1: the current owner's child(); 2: Owner::new() made current with
+            // set() instead of with()
+            let o = if mode == 1 {
+                Owner::current().expect("a current owner").child()
+            } else {
+                Owner::new()
+            };
             ctx(|c| c.owners.push((Some(o.clone()), true, body.clone())));
-            o.with(|| exec_body(&body));
+            if mode == 2 {
+                let prev = Owner::current().expect("a current owner");
+                o.set();
+                exec_body(&body);
+                prev.set();
+            } else {
+                o.with(|| exec_body(&body));
+            }
             drop(o);
         }
-        6 | 9 | 10 => {
+        6 | 9 | 10 | 15 | 16 | 17 | 18 => {
             let tag = st.at(0).num();
             let body = st.at(1).clone();
             let eid = ctx(|c| c.effects.len());
@@ -379,9 +556,27 @@ fn exec_stmt(st: &Sexp) {
                     let k = node_id(&format!("{e:?}"));
                     (EffH::Sync(e), k)
                 }
-                _ => {
+                15 => {
+                    let e = Effect::new_sync(move |_| run());
+                    let k = node_id(&format!("{e:?}"));
+                    (EffH::Sync(e), k)
+                }
+                16 => {
+                    let e = Effect::watch_sync(run, |_: &(), _, _: Option<()>| (), false);
+                    let k = node_id(&format!("{e:?}"));
+                    (EffH::Sync(e), k)
+                }
+                18 =>
+                {
+                    #[allow(deprecated)]
+                    let e = reactive_graph::effect::create_effect(move |_| run());
+                    let k = node_id(&format!("{e:?}"));
+                    (EffH::Local(e), k)
+                }
+                t => {
                     // the scope body is the dependency function; the handler does nothing
-                    let e = Effect::watch(run, |_: &(), _, _: Option<()>| (), false);
+                    // (17: it also runs on the first run)
+                    let e = Effect::watch(run, |_: &(), _, _: Option<()>| (), t == 17);
                     let k = node_id(&format!("{e:?}"));
                     (EffH::Local(e), k)
                 }
@@ -393,7 +588,7 @@ fn exec_stmt(st: &Sexp) {
                 c.keys.push(k)
             });
         }
-        8 => {
+        8 | 19 | 20 => {
             // RenderEffect: first run at once (effects created by the body spawn their tasks
             // first), no arena entry; the handle is retained here
             let body = st.at(1).clone();
@@ -405,16 +600,23 @@ fn exec_stmt(st: &Sexp) {
             let t2 = trig.clone();
             let eid_cell = std::sync::Arc::new(std::sync::atomic::AtomicUsize::new(usize::MAX));
             let cell2 = eid_cell.clone();
-            let e = RenderEffect::new(move |prev: Option<()>| {
+            let tag = st.at(0).num();
+            let first = std::sync::atomic::AtomicBool::new(true);
+            let f = move |_prev: Option<()>| {
                 t2.track();
-                if prev.is_none() {
+                if first.swap(false, std::sync::atomic::Ordering::SeqCst) {
                     log(Lst(vec![Num(6), Num(oid as i64)]));
                 } else {
                     let eid = cell2.load(std::sync::atomic::Ordering::SeqCst);
                     log(Lst(vec![Num(2), Num(eid as i64)]));
                 }
                 exec_body(&body);
-            });
+            };
+            let e = match tag {
+                19 => RenderEffect::new_isomorphic(f),
+                20 => RenderEffect::new_with_value(f, Some(())),
+                _ => RenderEffect::new(f),
+            };
             let eid = ctx(|c| {
                 c.effects.push((EffH::Render(Some(e)), trig));
                 c.effects.len() - 1
@@ -422,7 +624,8 @@ fn exec_stmt(st: &Sexp) {
             eid_cell.store(eid, std::sync::atomic::Ordering::SeqCst);
             assert_eq!(exec::spawned(), eid + 1, "task number = effect number");
         }
-        11 => {
+        11 | 21 | 22 | 23 => {
+            let tag = st.at(0).num();
             let body = st.at(1).clone();
             let iid = ctx(|c| {
                 c.owners.push((None, false, body.clone()));
@@ -431,25 +634,47 @@ fn exec_stmt(st: &Sexp) {
             let trig = ArcTrigger::new();
             ctx(|c| c.imms.push((None, trig.clone())));
             let t2 = trig.clone();
-            let e = ImmediateEffect::new(move || {
+            let f = move || {
                 t2.track();
                 log(Lst(vec![Num(7), Num(iid as i64)]));
                 exec_body(&body);
-            });
-            ctx(|c| c.imms[iid].0 = Some(e));
+            };
+            match tag {
+                21 => {
+                    let e = ImmediateEffect::new_mut(f);
+                    ctx(|c| c.imms[iid].0 = Some(e));
+                }
+                22 => {
+                    let e = ImmediateEffect::new_isomorphic(f);
+                    ctx(|c| c.imms[iid].0 = Some(e));
+                }
+                // the current owner holds the handle: dropped by one of its cleanups
+                23 => ImmediateEffect::new_scoped(f),
+                _ => {
+                    let e = ImmediateEffect::new(f);
+                    ctx(|c| c.imms[iid].0 = Some(e));
+                }
+            }
         }
-        7 => {
+        7 | 24 | 25 | 26 => {
+            let tag = st.at(0).num();
             let body = st.at(1).clone();
             let mid = ctx(|c| c.memos.len());
             let trig = ArcTrigger::new();
             ctx(|c| c.owners.push((None, false, body.clone())));
             let t2 = trig.clone();
-            let m = Memo::new(move |_| {
+            let f = move || {
                 t2.track();
                 log(Lst(vec![Num(3), Num(mid as i64)]));
                 exec_body(&body);
                 0i64
-            });
+            };
+            let m = match tag {
+                24 => Memo::new_with_compare(move |_| f(), |a, b| a != b),
+                25 => Memo::new_owning(move |_| (f(), true)),
+                26 => Memo::from(reactive_graph::computed::ArcMemo::new(move |_| f())),
+                _ => Memo::new(move |_| f()),
+            };
             let k = node_id(&format!("{m:?}"));
             ctx(|c| {
                 c.memos.push((m, trig));
@@ -605,6 +830,24 @@ fn step(op: &Sexp) {
                 D::L(e) => e.dispose(),
                 D::S(e) => e.dispose(),
                 D::R(r) => drop(r),
+                D::N => {}
+            }
+        }
+        25 => {
+            // Effect::stop (not for render effects)
+            enum D {
+                L(Effect<LocalStorage>),
+                S(Effect<SyncStorage>),
+                N,
+            }
+            let d = ctx(|c| match c.effects.get(a as usize) {
+                Some((EffH::Local(e), _)) => D::L(*e),
+                Some((EffH::Sync(e), _)) => D::S(*e),
+                _ => D::N,
+            });
+            match d {
+                D::L(e) => e.stop(),
+                D::S(e) => e.stop(),
                 D::N => {}
             }
         }
